@@ -12,7 +12,7 @@ QUICK = {"poset": 3, "semilattice": 2, "pend": 2, "diag": 2}
 def make_plan(ths, tier, rnd):
     plan = modelcheck.Plan()
     thorough = tier == "thorough"
-    for theory, (sig, stages) in ths.items():
+    for theory, (sig, stages) in modelcheck.select(ths, PROP, tier):
         api = histories.api_of(sig, modelcheck.module_path(theory))
         n = QUICK.get(theory, 2)
         # exhaustive small-scope histories from the ApiGen specification
@@ -26,6 +26,8 @@ def make_plan(ths, tier, rnd):
         for _ in range(120 if thorough else 25):
             plan.add(theory, histories.random_history(sig, api, rnd, rnd.randint(4, 14), n))
         plan.notes[theory] = {"enumerated_histories": len(bodies), "replayed_of_those": len(chosen)}
+    if thorough:
+        modelcheck.add_generated_programs(plan, rnd, 40, 12, PROP)
     return plan
 
 
